@@ -322,7 +322,7 @@ def as_verdict(desc):
 
 
 SUBS = [
-    Sub("aero_pair", aero_cfg(), aero_verdict, quick=240, thorough=6000),
-    Sub("aerostruct_pair", as_cfg(), as_verdict, quick=96, thorough=2500),
+    Sub("aero_pair", aero_cfg(), aero_verdict, quick=720, thorough=12000),
+    Sub("aerostruct_pair", as_cfg(), as_verdict, quick=200, thorough=4000),
     Sub("offplane_probe", aero_cfg(offplane=True), offplane_verdict, quick=16, thorough=100, max_shards=2),
 ]
